@@ -28,6 +28,11 @@ inductive Reach (c : Cfg) (gOf : Id → Bool) : State → Prop
       Reach c gOf (s.add c i txs force).1
   | commit (s : State) (i : Nat) : Reach c gOf s → Reach c gOf (s.commit i)
   | flush (s : State) : Reach c gOf s → Reach c gOf s.flushStep
+  /-- node restart at any point: a new manager over the same database, all trackers gone.
+      The ghost log restarts, so the theorems below speak about the lists finalized since the
+      last restart; see `f5d_restart_lowered_threshold_replay_in_tree` for what can happen to
+      lists finalized before it. -/
+  | restart (s : State) : Reach c gOf s → Reach c gOf s.restart
 
 theorem Reach.inv {c : Cfg} {gOf : Id → Bool} {s : State} (h : Reach c gOf s) : SInv gOf s := by
   induction h with
@@ -37,6 +42,7 @@ theorem Reach.inv {c : Cfg} {gOf : Id → Bool} {s : State} (h : Reach c gOf s) 
   | add s i txs force _ hty ih => exact SInv_add c ih i txs force hty
   | commit s i _ ih => exact SInv_commitF (i + 1) s i ih
   | flush s _ ih => exact ⟨⟨ih.wf.lt, ih.wf.grp⟩, ih.ti, MInv_flushStep ih.mi⟩
+  | restart s _ _ => exact SInv_restart gOf s
 
 /-- `Holds c s i k ts`: a block on the chain ending in tracker `i` holds id `k`, and `ts` is a
     timestamp that block could have accepted.  The chain is: the unfinalized trackers reached
@@ -165,6 +171,23 @@ def f5c (c : Cfg) : State :=
   let s6 := (s5.commit 2).flushStep
   (s6.newChild 2 131 30).getD s6
 
+/-- service-style root (0,50); (100,50) holds 1@150, finalized and flushed; RESTART; root (0,10);
+    (110,10) and (131,10) finalized (the second evicts the first: maxTSInDB = 120); then (140,10),
+    whose window (130,150] contains 150 -/
+def f5d (c : Cfg) : State :=
+  let s0 := State.init.newRoot true 0 50
+  let s1 := (s0.newChild 0 100 50).getD s0
+  let s2 := (s1.add c 1 [(1, 150)] false).1
+  let s3 := ((s2.commit 1).flushStep.flushStep).restart
+  let s4 := s3.newRoot true 0 10
+  let s5 := (s4.newChild 0 110 10).getD s4
+  let s6 := (s5.add c 1 [(2, 110)] false).1
+  let s7 := (s6.commit 1).flushStep.flushStep
+  let s8 := (s7.newChild 1 131 10).getD s7
+  let s9 := (s8.add c 2 [(3, 131)] false).1
+  let s10 := (s9.commit 2).flushStep
+  (s10.newChild 2 140 10).getD s10
+
 end Witness
 
 /-- F5 in the tree: id 1 (timestamp 111, inside both windows) is held by the unfinalized parent
@@ -192,6 +215,16 @@ theorem f5c_evicted_boundary_replay_pinned :
     (Witness.f5c Cfg.pinned).mgr.cacheN.maxTS = 110 ∧
     ((Witness.f5c Cfg.pinned).add Cfg.pinned 3 [(1, 110)] false).2 = .ok 1 ∧
     ((Witness.f5c Cfg.tree).add Cfg.tree 3 [(1, 110)] false).2 = .dup 0 := by decide
+
+/-- F5d (tree, and also with F5 repaired): a transaction finalized BEFORE A RESTART is known to
+    the new manager only through the database, but maxTSInDB is rebuilt from the lists evicted
+    since the restart; if their windows end earlier (threshold lowered: 50 → 10), the lookup is
+    answered "absent" without reading the database and 1@150 is accepted a second time. -/
+theorem f5d_restart_lowered_threshold_replay_in_tree :
+    windowCheck 100 50 150 = .ok ∧ windowCheck 140 10 150 = .ok ∧
+    (1 ∈ (Witness.f5d Cfg.tree).mgr.db) ∧ (Witness.f5d Cfg.tree).mgr.cacheN.maxTS = 120 ∧
+    ((Witness.f5d Cfg.tree).add Cfg.tree 3 [(1, 150)] false).2 = .ok 1 ∧
+    ((Witness.f5d Cfg.repaired).add Cfg.repaired 3 [(1, 150)] false).2 = .ok 1 := by decide
 
 /-- non-vacuity: the witness histories are `Reach`able, the chain predicate is inhabited, and
     an unforced Add can succeed on a non-empty chain -/
